@@ -836,8 +836,60 @@ def run(p, report, tier):
                 "store of a stream strategy stores such an object (a shared manager is aged and charged by all its holders, "
                 "which lifts each holder's spend above its budget)", floor=8)
     check_manager_private(p, report, "R4.9")
+    report.rule("R4.10", "the label account is kept in full-width numbers: no array or scalar in the stream strategies and budget "
+                "managers is created with / cast to a bounded-width dtype (uint8, int8/16, float16/32): an indicator of that "
+                "type added to a counter turns the counter into it, and the count of granted labels wraps (255 + 1 = 0) or "
+                "stops growing (float32 at 2**24), after which the guard admits labels without end", floor=10)
+    check_no_narrow_dtype(p, report, "R4.10", lambda f: f.file.startswith("skactiveml/stream/") or
+                          (f.cls is not None and f.cls.name in ("BudgetManager", "SingleAnnotatorStreamQueryStrategy")))
     report.assumptions += [
         "the numerical bounds of the property follow from R4.1-R4.4 by arithmetic that is not in the code; only the four structural premises are decided",
         "strict vs. non-strict comparison is not judged",
         "BalancedIncrementalQuantileFilter is not budget-enforcing in the sense of the property and is excluded",
     ]
+
+
+NARROW = {"uint8", "int8", "int16", "uint16", "float16", "float32", "half", "single", "ubyte", "byte", "short", "ushort",
+          "uint32", "int32", "intc", "uintc"}
+NARROW_CODES = {"u1", "i1", "i2", "u2", "f2", "f4", "e", "f", "b", "B", "h", "H", "u4", "i4", "uint8", "int8", "int16",
+                "uint16", "float16", "float32", "int32", "uint32"}
+
+
+def _narrow_dtype_expr(e):
+    if isinstance(e, ast.Attribute) and e.attr in NARROW:
+        return True
+    if isinstance(e, ast.Name) and e.id in NARROW:
+        return True
+    if isinstance(e, ast.Constant) and isinstance(e.value, str) and e.value.lstrip("<>=|") in NARROW_CODES:
+        return True
+    if isinstance(e, ast.Call) and (callname_(e) or "").split(".")[-1] == "dtype" and e.args:
+        return _narrow_dtype_expr(e.args[0])
+    return False
+
+
+def check_no_narrow_dtype(p, report, rule, scope):
+    """Obligation per function in scope that creates or casts arrays: none of its dtype arguments is bounded-width."""
+    for f in sorted(p.all_functions(), key=lambda f: f.qual):
+        if "/tests/" in f.file or not scope(f):
+            continue
+        n, bad = 0, None
+        for c in ast.walk(f.node):
+            if not isinstance(c, ast.Call):
+                continue
+            fn = (callname_(c) or "").split(".")[-1]
+            dts = [k.value for k in c.keywords if k.arg == "dtype"]
+            if fn in ("astype", "view") and c.args:
+                dts.append(c.args[0])
+            if fn in NARROW and isinstance(c.func, ast.Attribute):      # np.uint8(x)
+                dts.append(c.func)
+            if not dts and fn not in ("zeros", "ones", "full", "empty", "array", "asarray", "arange", "zeros_like", "ones_like",
+                                      "full_like", "empty_like"):
+                continue
+            n += 1
+            if bad is None and any(_narrow_dtype_expr(d) for d in dts):
+                bad = c
+        if n:
+            report.add(rule, f.qual, "arrays are created and cast in full-width dtypes", f"{f.file}:{(bad or f.node).lineno}",
+                       bad is None, nontrivial=False, detail=f"{n} creation / cast site(s)" if bad is None else
+                       f"`{ast.unparse(bad)[:70]}` has a bounded-width dtype: whatever is accumulated from it inherits that width "
+                       f"(numpy keeps the array's dtype when a python number is added) and overflows / saturates silently")
